@@ -198,6 +198,7 @@ func CmdCheck(args []string) int {
 	// cover (vacuity) probes: "false" must NOT be provable at the exits
 	ccfg := cfg
 	ccfg.Timeout = 2 * time.Second
+	ccfg.NoSecondWave = true
 	ccfg.WorkDir = filepath.Join(work, "cover")
 	Discharge(covers, ccfg)
 	vacuous := []string{}
